@@ -126,6 +126,15 @@ Definition tool_down (p : plan) : bytes := concat (map tool_down_change (rev (p_
 Definition goose_content (p : plan) : bytes := S_GOOSE_UP ++ tool_up p ++ S_GOOSE_DOWN ++ tool_down p.
 Definition dbmate_content (p : plan) : bytes := S_DBMATE_UP ++ tool_up p ++ S_DBMATE_DOWN ++ tool_down p.
 
+(** funcs["rollback"] (fix ae3e356): "--rollback: " + strings.ReplaceAll(stmt, "\n", "\n--rollback: ") + ";\n"
+    — every line of a multi-line reverse statement carries the comment prefix. *)
+Fixpoint rollback_lines (s : bytes) : bytes :=
+  match s with
+  | [] => []
+  | b :: t => if N.eqb b 10 then 10%N :: S_ROLLBACK ++ rollback_lines t else b :: rollback_lines t
+  end.
+Definition liquibase_rollback (r : bytes) : bytes := S_ROLLBACK ++ rollback_lines r ++ S_SEMI_NL.
+
 Fixpoint liquibase_changes (now : bytes) (i : N) (cs : list change) : bytes :=
   match cs with
   | [] => []
@@ -133,7 +142,7 @@ Fixpoint liquibase_changes (now : bytes) (i : N) (cs : list change) : bytes :=
     S_CHANGESET ++ now ++ [45%N] ++ dec (i + 1) ++ S_NL ++
     (match c_comment c with [] => [] | cm => S_LCOMMENT ++ cm end) ++ S_NL ++
     c_cmd c ++ S_SEMI_NL ++
-    concat (map (fun r => S_ROLLBACK ++ r ++ S_SEMI_NL) (c_reverse c)) ++
+    concat (map liquibase_rollback (c_reverse c)) ++
     liquibase_changes now (i + 1) t
   end.
 Definition liquibase_content (now : bytes) (p : plan) : bytes :=
